@@ -192,6 +192,51 @@ theorem execCmds_queue_buffered : ∀ (cmds : List Cmd) (r : Runner), r.outcome 
       exact execCmds_buf_mono cs _ _ (by simp [execCmd])
     · exact execCmds_queue_buffered cs _ hn1 hn att step hm
 
+theorem execCmd_log (r : Runner) (c : Cmd) : (execCmd r c).log = r.log := by
+  cases c with
+  | queueEvent att step delay =>
+    cases delay with
+    | none => rfl
+    | some d => simp only [execCmd]; split <;> rfl
+  | scheduleIdleCheck => simp only [execCmd]; split <;> rfl
+  | _ => rfl
+
+theorem execCmds_log : ∀ (cmds : List Cmd) (r : Runner), (execCmds r cmds).log = r.log
+  | [], _ => rfl
+  | c :: cs, r => by
+    simp only [execCmds]
+    split
+    · exact execCmd_log r c
+    · rw [execCmds_log cs, execCmd_log]
+
+theorem execCmd_buf_prefix (r : Runner) (c : Cmd) : ∃ extra, (execCmd r c).buf = r.buf ++ extra := by
+  cases c with
+  | queueEvent att step delay =>
+    cases delay with
+    | none => exact ⟨_, rfl⟩
+    | some d =>
+      simp only [execCmd]
+      split
+      · exact ⟨[], by simp [Runner.push]⟩
+      · exact ⟨_, rfl⟩
+  | scheduleIdleCheck =>
+    simp only [execCmd]
+    split
+    · exact ⟨[], by simp⟩
+    · exact ⟨_, rfl⟩
+  | _ => exact ⟨[], by simp [execCmd, Runner.finish, Runner.push]⟩
+
+/-- the buffer is a FIFO: processing commands only appends to it -/
+theorem execCmds_buf_prefix : ∀ (cmds : List Cmd) (r : Runner), ∃ extra, (execCmds r cmds).buf = r.buf ++ extra
+  | [], r => ⟨[], by simp [execCmds]⟩
+  | c :: cs, r => by
+    simp only [execCmds]
+    split
+    · exact execCmd_buf_prefix r c
+    · obtain ⟨e1, h1⟩ := execCmd_buf_prefix r c
+      obtain ⟨e2, h2⟩ := execCmds_buf_prefix cs (execCmd r c)
+      exact ⟨e1 ++ e2, by rw [h2, h1, List.append_assoc]⟩
+
 /-! ### the timer action only permutes -/
 
 theorem insertTimer_perm (t : Timer) : ∀ l : List Timer, (insertTimer t l).Perm (t :: l)
@@ -213,6 +258,26 @@ theorem timer_split (heap : List Timer) (p : Timer → Bool) (t : Tick) :
       ((heap.filter (fun x => !p x)).map (·.tick)).count t = (heap.map (·.tick)).count t := by
   rw [((sortTimers_perm (heap.filter p)).map (·.tick)).count_eq t, ← List.count_append, ← List.map_append]
   exact ((List.filter_append_perm p heap).map (·.tick)).count_eq t
+
+/-- the runner after taking `t` off the head of the buffer -/
+def Runner.popped (r : Runner) (t : Tick) (rest : List Tick) : Runner :=
+  { r with buf := rest, idlePending := if t = Tick.idleCheck then false else r.idlePending }
+
+/-- … and after the reducer's new state is stored and the tick is logged (`on_tick`) -/
+def Runner.logged (r : Runner) (t : Tick) (rest : List Tick) (st' : State) : Runner :=
+  { r with buf := rest, idlePending := if t = Tick.idleCheck then false else r.idlePending,
+           st := st', log := r.log ++ [(t, r.now)] }
+
+/-- one `drain` of a running runner with a non-empty buffer, spelled out -/
+theorem step_drain (cfg : Cfg) (pol : Policy) (r : Runner) (t : Tick) (rest : List Tick)
+    (ho : r.outcome = none) (hb : r.buf = t :: rest) :
+    r.step cfg pol .drain =
+      if (reduce cfg pol t r.st r.now).2.contains .crash then (r.popped t rest).finish .crashed
+      else execCmds (r.logged t rest (reduce cfg pol t r.st r.now).1) (reduce cfg pol t r.st r.now).2 := by
+  unfold Runner.step
+  rw [if_neg (by simp [ho])]
+  simp only [hb]
+  rfl
 
 /-! ### what an action creates -/
 
